@@ -206,6 +206,12 @@ def run_case(case):
                             '(other adjust_prices setting) was used: %s' % (d or (base['error'], fresh_src['error'])))
         ds = q.CSVDailyBarDataSource(path, q.Equity, adjust_prices=cfg.get('adjust', True), csv_symbols=list(mk))
         session_digest({'cfg': variant(cfg), 'market': mk}, data_source=ds, path=path)
+        for d_ in cal.bdays(cal.date3(cfg['start']), cal.date3(cfg['end'])):
+            for hh, mm in ((14, 30), (21, 0)):
+                t_ = cal.ts(d_, hh, mm).tz_convert('America/New_York')      # same instants, another time zone
+                for s_ in mk:
+                    ds.get_bid(t_, 'EQ:' + s_)
+                    ds.get_ask(t_, 'EQ:' + s_)
         warm = session_digest(case, data_source=ds, path=path)
     d = session.first_diff(base, warm)
     if d or base['error'] != warm['error']:
